@@ -111,6 +111,46 @@ def thorough(chk, prop, mod, repo):
         finally:
             shutil.rmtree(scratch, ignore_errors=True)
         chk.extra["selftest"] = {"mutants": len([c for c in cases if not c.get("benign")]), "mutants_reported": det, "benign_refactors": len([c for c in cases if c.get("benign")]), "benign_silent": sil}
+    # (4) the seeded changes written by independent sub-agents for this property (seeded/<id>/patch.diff):
+    #     applied to a scratch copy outside /repo and /verif, the property's quick check must report them
+    sdir = os.path.join(here, "seeded")
+    if os.path.isdir(sdir):
+        import json as _json
+        scratch = tempfile.mkdtemp(prefix="verif-seeded-%s-" % prop)
+        res = []
+        try:
+            for sid in sorted(os.listdir(sdir)):
+                mp = os.path.join(sdir, sid, "meta.json")
+                pp = os.path.join(sdir, sid, "patch.diff")
+                if not (os.path.exists(mp) and os.path.exists(pp)):
+                    continue
+                meta = _json.load(open(mp))
+                if meta.get("property") != prop:
+                    continue
+                dst = os.path.join(scratch, "tree")
+                shutil.rmtree(dst, ignore_errors=True)
+                os.makedirs(dst)
+                for item in ("src", "Cargo.toml", "Cargo.lock"):
+                    s_ = os.path.join(repo, item)
+                    if os.path.isdir(s_):
+                        shutil.copytree(s_, os.path.join(dst, item))
+                    else:
+                        shutil.copy(s_, dst)
+                a_ = subprocess.run(["git", "apply", "--unsafe-paths", "--directory", dst, pp], cwd="/", stdout=subprocess.PIPE, stderr=subprocess.STDOUT, text=True)
+                if a_.returncode != 0:
+                    a_ = subprocess.run(["patch", "-p1", "-s", "-d", dst, "-i", pp], stdout=subprocess.PIPE, stderr=subprocess.STDOUT, text=True)
+                if a_.returncode != 0:
+                    res.append({"seed": sid, "applies": False})
+                    continue
+                envc = dict(os.environ, VERIF_REPO=dst, VERIF_EVIDENCE_DIR=os.path.join(scratch, "evidence"), VERIF_TIER="quick")
+                r = subprocess.run([os.path.join(here, "check"), prop, "--tier", "quick"], env=envc, stdout=subprocess.PIPE, stderr=subprocess.STDOUT, text=True)
+                keys = [l.strip()[len("violation "):][:160] for l in r.stdout.splitlines() if l.strip().startswith("violation [")]
+                res.append({"seed": sid, "applies": True, "reported": r.returncode == 1, "by": keys[:3]})
+                if r.returncode != 1:
+                    sys.stderr.write("seeded change %s is not reported by %s (rc=%d)\n" % (sid, prop, r.returncode))
+        finally:
+            shutil.rmtree(scratch, ignore_errors=True)
+        chk.extra["seeded_changes"] = res
 
 
 def main():
